@@ -1268,8 +1268,11 @@ var prop = vkit.Prop[Case]{
 		"(the same document again, a document sharing members or tokens with it, the same text through UnmarshalJSON, UnmarshalText and the form decoder as ui_locales / scope of an authorization request): " +
 		"every decode is judged against ITS document, and every value holds at the end what its decode / its owner left in it; TestFormsEnumerated also decodes every enumerated single-member document twice into a destination in which every claim is set, and every scalar form into a variable that holds a value, " +
 		"and decodes every enumerated form, changes the result in place (every kind of change) and decodes the form again through every decoder entry of its family; " +
+		"a step may also be the caller COPYING a decoded value BY VALUE (kept := *d; a template copied per request; all 8 claims types, Audience / SpaceDelimitedArray / Locales variables through every decoder entry, the authorization request of the form decoder; optionally after an in-place delete / grow that leaves spare capacity): " +
+		"further documents with audience / scope / amr members in documented forms are decoded into the copies and into the original, each judged against ITS document, and at the end every value must still hold, in every member the library decodes with its own code " +
+		"(audience, scope, locales, scalars - not what encoding/json documents to decode in place: plain []string, maps, pointed-to structs), what it held when its last decode returned / when it was copied; " +
 		"TestConcurrent (race binary) runs such step lists on 2-6 goroutines at once. " +
-		"non-trivial = (a) the custom map collides with >=1 registered name, (b) the document uses a non-canonical tolerant form, (c) plaintext length is not a multiple of the block, (d) >=2 kept encoded documents or a decode into a re-used / pre-populated destination or an in-place change that changed something; " +
+		"non-trivial = (a) the custom map collides with >=1 registered name, (b) the document uses a non-canonical tolerant form, (c) plaintext length is not a multiple of the block, (d) >=2 kept encoded documents or a decode into a re-used / pre-populated destination or an in-place change that changed something or a by-value copy; " +
 		"distinct = (a) type + colliding set/unset names + set registered names, (b) type + multiset of member forms, (c) API, key length, relation of the two keys (common prefix class), plaintext length, tampering, (d) the list of (operation, type, destination kind). " +
 		"excluded: custom values that are not JSON-safe (invalid UTF-8, NaN), scope entries with spaces; grey: duplicate member names, case variants of registered names, fractional or >2^53 timestamps, language tags that canonicalisation rewrites",
 	Gen:   genCase,
